@@ -176,15 +176,37 @@ func runC12(c *Ctx) {
 		}
 	}
 	if f := c.fn(relDomain, "ReverseDomainScanner", "Scan"); f != nil {
-		good := false
-		eachInstr(f, func(in ssa.Instruction) {
-			if ci, ok := in.(*ssa.Call); ok && callName(ci) == "strings.LastIndexByte" {
-				if n, ok := constInt(ci.Call.Args[1]); ok && n == '.' {
-					good = true
-				}
+		// the separator search: strings.LastIndexByte(…, '.') in Scan itself or in the one helper it calls; and (D18) the
+		// search is escape-aware: names are in presentation format, a dot that is part of a label is written "\\." — the
+		// searching function consults a helper that looks at the bytes in front of the dot for backslashes
+		good, escapeAware := false, false
+		seenFns := map[*ssa.Function]bool{}
+		var visit func(g *ssa.Function, d int)
+		visit = func(g *ssa.Function, d int) {
+			if g == nil || seenFns[g] || d > 2 || !inMosdns(g) {
+				return
 			}
-		})
+			seenFns[g] = true
+			eachInstr(g, func(in ssa.Instruction) {
+				if ci, ok := in.(*ssa.Call); ok {
+					if callName(ci) == "strings.LastIndexByte" {
+						if n, ok := constInt(ci.Call.Args[1]); ok && n == '.' {
+							good = true
+						}
+					}
+					visit(staticCallee(ci), d+1)
+				}
+				if bo, ok := in.(*ssa.BinOp); ok && (bo.Op == token.EQL || bo.Op == token.NEQ) {
+					if n, isC := constInt(bo.Y); isC && n == '\\' {
+						escapeAware = true
+					}
+				}
+			})
+		}
+		visit(f, 0)
 		c.check(good, "separator@Scan", f.Pos(), "labels are separated by '.' only", "the label separator is not '.': 'domain:' rules match on something other than a label boundary")
+		c.check(escapeAware, "separator-unescaped@Scan", f.Pos(), "an escaped dot (part of a label) is not a separator",
+			"the label scanner splits at every '.', also at an escaped one: the name a\\.example.com. (labels \"a.example\", \"com\") matches the rule domain:example.com although it is no subdomain of it — a string suffix, not a label boundary")
 	}
 
 	// ---------------------------------------------------------------- R3
@@ -484,6 +506,21 @@ func runC12(c *Ctx) {
 	}
 
 	// ---------------------------------------------------------------- R10
+	// ---------------------------------------------------------------- R11
+	c.rule("R11", "a set that has rules is never dropped as empty: the trie's len() counts the value of the node it is called on (the root node holds the rule \".\") as well as its descendants'", 1)
+	if f := c.fn(relDomain, "labelNode", "len"); f != nil {
+		own := false
+		eachInstr(f, func(in ssa.Instruction) {
+			if ci, ok := in.(*ssa.Call); ok {
+				if sc := staticCallee(ci); sc != nil && sc.Name() == "hasValue" && len(ci.Call.Args) > 0 && ci.Call.Args[0] == ssa.Value(f.Params[0]) {
+					own = true
+				}
+			}
+		})
+		c.check(own, "len-counts-own-value", f.Pos(), "len() counts the receiver's own value",
+			"labelNode.len() does not count the value of the node it is called on: a matcher whose only rule is the root domain \".\" has Len() == 0, and domain_set / qname drop matchers with Len() == 0 — the set matches nothing instead of every name")
+	}
+
 	c.rule("R10", "the trie walk stops at the first label that has no child (labels must be consecutive from the right); every rule handed to MixMatcher.Add reaches a sub-matcher's Add, as written", 3)
 	if mf := c.fn(relDomain, "SubDomainMatcher", "Match"); mf != nil {
 		var scan ssa.Instruction
